@@ -42,6 +42,36 @@ CHECKS = {
         note="Defect D1 was found by this check on the pinned tree and repaired (known_findings.json, corpus/C05).",
         technique="Lean 4 theorem (mutual structural induction over the inward push) + per-run model/code differential correspondence",
         ref="§4 C05"),
+    "C06": dict(
+        text=("Theorems (Props/C06.lean): evalB_sound — for every tree and every interpretation (partial, interval-valued, naming "
+              "sub-proposition ids), the returned bounds contain the node's value under every completion inside the given "
+              "intervals / declared bounds; const_never_contradicted; evalB_mono; eqBounds_enclose + eqBounds_attained — the "
+              "reported equation bounds are exactly the attainable range of s*sum - v over the children's boxes (explicit "
+              "witnesses); tautology_iff / contradiction_iff. Tie: evaluate_propositions and the per-node flags are compared "
+              "with the model; oracle: enumeration of completions and of children's boxes."),
+        note="One level of the tree per theorem application (the recursion is that of assume); evaluate is called on deep copies (F-C09a).",
+        technique="Lean 4 theorem (interval-arithmetic soundness by mutual induction; exactness with explicit witnesses) + differential correspondence",
+        ref="§4 C06"),
+    "C07": dict(
+        text=("Theorem (Props/C07.lean), about assume() as repaired by the fix: commit for defect D6: assume_evaluate — for any "
+              "assumption A (leaves and sub-proposition ids, constants or ranges) and any further interpretation I of leaves A "
+              "left open (inside declared bounds), evaluate(I) of assume(A) equals evaluate(A u I) of the original; proved "
+              "through the pruning and re-sorting assume performs (stored_sums), using monotonicity and well-formedness of "
+              "computed intervals; assume_bounds_contain. Tie: assume() output compared structurally with the model; oracle: "
+              "assume-then-evaluate vs evaluate-on-union on the real code, and completions against assumed bounds."),
+        note="The hypothesis 'I stays inside declared bounds' is forced by the proof (DESIGN §4 C07). Defect D6 found by this check and repaired.",
+        technique="Lean 4 theorem (mutual induction, permutation invariance, monotonicity) + differential correspondence",
+        ref="§4 C07"),
+    "C08": dict(
+        text=("Theorems (Props/C08.lean): reduce_preserves_evaluate — for every tree and every interpretation of the still-free "
+              "leaves (inside declared bounds, no sub-proposition id named) the reduced model evaluates like the unreduced one "
+              "(constants folded into the threshold: const_split; decided nodes stay decided: monotonicity); reduce_no_const — "
+              "the result is a single constant or contains no variable/sub-proposition with constant bounds. Tie: reduce() "
+              "output compared structurally; oracle: evaluation of reduced vs unreduced on interpretations of the free leaves "
+              "and a scan for surviving constants."),
+        note="Models are fixed by declared constant leaves and by a preceding real assume().",
+        technique="Lean 4 theorem (mutual induction; reduce's bounds = evaluation on the empty interpretation) + differential correspondence",
+        ref="§4 C08"),
     "C03": dict(
         text=("Theorems (Props/C03.lean): on every interpretation fixing all leaves, interval evaluation returns exactly the "
               "point value of the arithmetic truth function with the two override rules (evaluate_total), which is the plain "
